@@ -96,6 +96,37 @@ Example full_becomes_complete_nonvacuous :
   covers_topology T_ex (A_set_cpubind (bs_of_N 0x1f) HWLOC_CPUBIND_THREAD) = true.
 Proof. vm_compute. auto. Qed.
 
+(* memory binding BY CPUSET on a tree with a CPU-less NUMA node: hwloc_cpuset_to_nodeset alone never returns the
+   CPU-less node, so it is the shortcut of hwloc_fix_membind_cpuset (whole-topology cpuset => COMPLETE nodeset)
+   that makes the four set-like entry points hand over every node; a cpuset just short of covering gets the
+   converted set *)
+Definition T_cpuless : topo :=   (* "pack:2 [numa] pu:2" restricted to PUs 0-1: node 1 kept without CPUs *)
+  TP (bs_of_N 3) (bs_of_N 3) (bs_of_N 3) (bs_of_N 3) [(0, bs_of_N 3); (1, bs_empty)] true.
+Example membind_by_cpuset_reaches_cpuless_nodes :
+  cpuset_to_nodeset T_cpuless (bs_of_N 3) = bs_of_N 1 /\
+  covers_topology T_cpuless (A_set_membind (bs_of_N 3) HWLOC_MEMBIND_BIND HWLOC_MEMBIND_THREAD) = true /\
+  map hc_set (s_trace (snd (run unit os_ok heap_ok all_present T_cpuless (A_set_membind (bs_of_N 3) HWLOC_MEMBIND_BIND HWLOC_MEMBIND_THREAD) tt))) = [Some (bs_of_N 3)] /\
+  map hc_set (s_trace (snd (run unit os_ok heap_ok all_present T_cpuless (A_set_proc_membind 0 (bs_of_N 3) HWLOC_MEMBIND_BIND 0) tt))) = [Some (bs_of_N 3)] /\
+  map hc_set (s_trace (snd (run unit os_ok heap_ok all_present T_cpuless (A_set_area_membind 4096 (bs_of_N 3) HWLOC_MEMBIND_BIND 0) tt))) = [Some (bs_of_N 3)] /\
+  map hc_set (s_trace (snd (run unit os_ok heap_ok all_present T_cpuless (A_alloc_membind 4096 (bs_of_N 3) HWLOC_MEMBIND_BIND 0) tt))) = [Some (bs_of_N 3)] /\
+  map hc_set (s_trace (snd (run unit os_ok heap_ok all_present T_cpuless (A_set_membind (bs_of_N 1) HWLOC_MEMBIND_BIND HWLOC_MEMBIND_THREAD) tt))) = [Some (bs_of_N 1)].
+Proof. vm_compute. auto 10. Qed.
+(* the general statement, for every topology (CPU-less nodes or not) and every entry point, is
+   bind_full_becomes_complete above; this is its by-cpuset instance spelled out *)
+Theorem membind_by_cpuset_whole_topology_gets_complete_nodeset :
+  forall W os heap present T (w : W) a c x,
+  api_is_mem a = true -> flag HWLOC_MEMBIND_BYNODESET (api_flags a) = false ->
+  (exists s, api_set a = Some s /\ bs_subset (t_cpuset T) s = true) ->
+  In c (s_trace (snd (run W os heap present T a w))) -> hc_set c = Some x -> x = t_cnodeset T.
+Proof.
+  intros W os heap present T w a c x Hm Hb [s [Hs Hc]] Hin Hx.
+  assert (Hcov : covers_topology T a = true).
+  { unfold covers_topology, api_setkind. rewrite Hs, Hm, Hb. exact Hc. }
+  rewrite (run_full_complete W os heap present T a w c x Hcov Hin Hx).
+  rewrite (run_mem_kind W os heap present T a w c Hm Hin) by (rewrite Hx; discriminate). reflexivity.
+Qed.
+Print Assumptions membind_by_cpuset_whole_topology_gets_complete_nodeset.
+
 (* ---- no hook: -1/ENOSYS without touching the OS ---- *)
 Theorem bind_enosys_without_hook :
   forall W os heap present T a (w : W),
